@@ -40,3 +40,33 @@ PROPS = {
                                                  verdicts=tot['counters'].get('verdicts', 0))],
     ),
 }
+
+NAV_RULE = ('cases: a valid document (generated tree, nesting chain or shipped valid corpus file; max_depth sufficient) plus a protocol-following '
+            'op script decoded from the case bytes (next, next_ensure, go_into_*, leave_*, get_raw, to_writer, the four lookup variants, refused '
+            'raw extraction on scalars), every call compared with the reference cursor; plus explicit-state exploration (BFS over joint states = '
+            'parser struct + state array bytes x reference cursor) of every protocol-legal history on every tree with <= N nodes. ')
+
+
+def nav(propid, nt_rule):
+    return dict(
+        harness='nav', env={'VH_PROP': propid},
+        rule=NAV_RULE + nt_rule,
+        tiers=dict(
+            quick=[enum(shards=4, variant='san', env={'VH_ENUM_N': '5'}), rc(25000, shards=6, max_size=300, corpus=['valid_objects']),
+                   fuzz(150000, shards=6, corpus=['valid_objects'])],
+            thorough=[enum(shards=12, variant='san', env={'VH_ENUM_N': '6'}), enum(shards=16, variant='plain', tag='plain7', env={'VH_ENUM_N': '7'}),
+                      rc(500000, shards=6, max_size=500, corpus=['valid_objects']), fuzz(10000000, shards=10, max_len=1024, corpus=['valid_objects'])],
+        ),
+        exhaustive_note=lambda tier, tot: [dict(scope='every protocol-legal call history (any length; visited-set BFS) on every object- and array-rooted tree with '
+                                                 '<= %d nodes over {object, array, int, bool}' % (5 if tier == 'quick' else 7), exhaustive=True,
+                                                 trees=tot['counters'].get('enum_trees', 0), joint_states=tot['counters'].get('enum_joint_states', 0),
+                                                 transitions=tot['counters'].get('enum_transitions', 0))],
+    )
+
+
+PROPS['C06'] = nav('C06', 'Non-trivial iff the script skips an un-entered container with next, or leaves with unread elements, or leaves while a container '
+                   'is pending; every BFS transition inside the root counts as one distinct case. distinct = hash(document, executed ops).')
+PROPS['C07'] = nav('C07', 'Non-trivial iff the script has a lookup miss later followed by a hit in the same case, or a lookup issued across a pending container, '
+                   'or >= 2 lookups with a name containing 0x00 or a byte >= 0x80; every BFS transition inside the root counts as one distinct case.')
+PROPS['C11'] = nav('C11', 'Non-trivial iff a get_raw/to_writer acts on a container nested >= 2 levels or after an earlier leave/raw/lookup; every BFS transition '
+                   'inside the root counts as one distinct case.')
